@@ -666,6 +666,7 @@ def check_C14(F, tier, t0):
     guarded(R, 'E1', engine_e.rule_E1, F, R)      # node identity is the address of the interned node: every node must be born in mk_choice
     guarded(R, 'X4 lineage', engine_x.rule_X4, F, R, ('model', 'retain'))      # the exported diagram is the one the table shows (after --retain-choices and --model)
     guarded(R, 'X7', engine_x.rule_X7, F, R)
+    guarded(R, 'X7 children', engine_x.rule_X7_children, F, R)      # both children of a decision node, the child itself as the target of a parse-tree edge
     guarded(R, 'X8', engine_x.rule_X8, F, R, 'rsbdd', 'executable')
     guarded(R, 'T filter spellings', engine_t.rule_tte, F, R)
     R.floor('X1:edge-tuples', 2); R.floor('X2:dot-leaf-cases', 6); R.floor('X2:dot-edge-cases', 18); R.floor('X6:variants', 12); R.floor('X6:recursive-fields', 11)
@@ -686,6 +687,7 @@ def check_C15(F, tier, t0):
     guarded(R, 'S model', run_S, R, make_engine(F), spec_bdd.BDD_SCOPE['C07'])      # `rsbdd -m` on the emitted formula: one placement, or nothing for the boards without one
     guarded(R, 'X8', engine_x.rule_X8, F, R, 'n_queens_gen')
     guarded(R, 'X8 flush', engine_x.rule_X8_flush, F, R, 'n_queens_gen')
+    guarded(R, 'X8 writer choice', engine_x.rule_X8_writer_choice, F, R, 'n_queens_gen')
     guarded(R, 'L remarks', engine_l.rule_comment_holes, F, R, 'n_queens_gen')
     front_end(R, F)       # the emitted text means what the language's tokenizer and operator tables say it means
     guarded(R, 'X5', engine_x.rule_X5, F, R)      # ... with every name of the emitted formula a variable of its own
@@ -707,6 +709,7 @@ def check_C16(F, tier, t0):
     guarded(R, 'L templates', engine_l.rule_max_clique_templates, F, R)
     guarded(R, 'X8', engine_x.rule_X8, F, R, 'max_clique_gen')
     guarded(R, 'X8 flush', engine_x.rule_X8_flush, F, R, 'max_clique_gen')
+    guarded(R, 'X8 writer choice', engine_x.rule_X8_writer_choice, F, R, 'max_clique_gen')
     guarded(R, 'no early return', engine_x.rule_no_early_return, F, R, 'max_clique_gen')
     guarded(R, 'L remarks', engine_l.rule_comment_holes, F, R, 'max_clique_gen')
     front_end(R, F)       # the emitted text means what the language's tokenizer and operator tables say it means
@@ -729,6 +732,7 @@ def check_C18(F, tier, t0):
     guarded(R, 'L colours', engine_l.rule_colour_vertices, F, R)
     guarded(R, 'X8', engine_x.rule_X8, F, R, 'random_graph_gen')
     guarded(R, 'X8 flush', engine_x.rule_X8_flush, F, R, 'random_graph_gen')
+    guarded(R, 'X8 writer choice', engine_x.rule_X8_writer_choice, F, R, 'random_graph_gen')
     guarded(R, 'X8 order', engine_x.rule_X8_after_input, F, R, 'random_graph_gen', ('random_graph_gen::read_graph', 'random_graph_gen::generate_graph', 'random_graph_gen::augment_colors'))
     R.floor('L:refuse-not-truncate', 1); R.floor('L:candidate-push-sites', 1); R.floor('L:complete-count', 1); R.floor('L:truth-table-rows', 22); R.floor('L:edge-writer-sites', 3)
     return finish(R, 'other', tier, t0,
@@ -778,6 +782,7 @@ def check_C17(F, tier, t0):
     guarded(R, 'U', engine_u.rule_sudoku, F, R)
     guarded(R, 'X8', engine_x.rule_X8, F, R, 'sudoku_gen')
     guarded(R, 'X8 flush', engine_x.rule_X8_flush, F, R, 'sudoku_gen')
+    guarded(R, 'X8 writer choice', engine_x.rule_X8_writer_choice, F, R, 'sudoku_gen')
     guarded(R, 'no early return', engine_x.rule_no_early_return, F, R, 'sudoku_gen')
     guarded(R, 'L remarks', engine_l.rule_comment_holes, F, R, 'sudoku_gen')
     front_end(R, F)       # the emitted text means what the language's tokenizer and operator tables say it means
